@@ -14,23 +14,37 @@ LEVEL = 'proof'
 LEVEL_TEXT = ('Lean theorems, for every lattice given as data (face supports as a table), every error, every '
               'tie-break stream, every loop bound and every step of every run of both sweep automata '
               '(SweepDecoder3D, RotatedSweepDecoder3D, all eight sweep directions): if the flip table agrees '
-              'with the face stabilizers on every edge (decidable hypothesis flipTableOK) the tracked signs equal '
-              'the face syndrome of error + correction so far, the run never raises, the correction is Z-only, '
-              'and a stop without excitations leaves zero face syndrome. flipTableOK (and the two side '
-              'conditions) are proved for Toric3DCode of every size L_i >= 2, Planar3DCode of every size and '
-              'RotatedPlanar3DCode of every size (rotated_planar3D_flip_table_ok, _stabilizers_distinct, '
-              '_sweep_edges_ok: coordinate argument over the (x+y)%4 sub-lattices, no size bound), so C10 holds '
-              'on these three families unconditionally (toric3D_/planar3D_/rotated_planar3D_sweep_tracks); ten '
-              'RotatedPlanar3DCode sizes up to 4x4x2 are additionally kernel-evaluated as an independent '
-              'cross-check, and the compiled model evaluates the hypotheses on every size the harness runs. '
-              'RotatedToric3DCode is a negative instance (known finding D10). The model is tied to the decoders '
-              'by differential runs of flip_edge on every edge, of every sweep_move of traced decodes, and of '
-              'full decode results.')
+              'with the face stabilizers on every edge (decidable hypothesis flipTableOK / flipTableOKRot) the '
+              'tracked signs equal the face syndrome of error + correction so far, the run never raises, the '
+              'correction is Z-only, and a stop without excitations leaves zero face syndrome. Face rows are the '
+              'rows the decoder does not blank in get_initial_state: rows outside z_indices for SweepDecoder3D, rows '
+              'of stabilizer_type face for RotatedSweepDecoder3D (TracksRot keeps the X part of the error, because '
+              'on the defect lines of an odd-sized RotatedToric3DCode a face generator carries Z letters). The '
+              'hypotheses are proved for Toric3DCode of every size L_i >= 2, Planar3DCode of every size, '
+              'RotatedPlanar3DCode of every size and RotatedToric3DCode of every size L_x, L_y >= 2, any L_z, both '
+              'parities (rotated_toric3D_flip_table_ok, _stabilizers_distinct, _sweep_edges_ok: coordinate argument '
+              'over the (x+y)%4 sub-lattices with the periodic seam as cyclic successor / predecessor and the '
+              'has_defect letter rule as a parity rule; odd x odd sizes, which the class does not support, are '
+              'covered too; a side of length 1 is a proved negative instance), so C10 holds on all four families of '
+              'allowed_codes unconditionally (toric3D_/planar3D_/rotated_planar3D_/rotated_toric3D_sweep_tracks, '
+              '_stop_clean). The rotated automaton is modelled as repaired (_wrap in get_sweep_faces, '
+              'get_sweep_edges and flip_edge, the code-id test as a flag of the lattice; initial state blanked by '
+              'type); regression theorems about the decoder BEFORE the repair (old... definitions): its flip table '
+              'on RotatedToric3DCode 2x2x2 is inconsistent on 8 of 10 edges (former finding D10) and its initial '
+              'state blanks a face row on the defect line of 2x3x2. Ten RotatedPlanar3DCode and seven '
+              'RotatedToric3DCode sizes are additionally kernel-evaluated as an independent cross-check, and the '
+              'compiled model evaluates the hypotheses on every size the harness runs. The model is tied to the '
+              'decoders by differential runs of flip_edge on every edge, of _wrap / get_sweep_faces / '
+              'get_sweep_edges at every vertex in all eight directions, of every sweep_move of traced decodes, and '
+              'of full decode results.')
 LEVEL_NOTE = ('trusted: Lean kernel + standard axioms; correspondence harness; hand-written Lean transcription of '
               'the two automata and of the four 3-D lattices (compared with the implementation on every run: '
-              'coordinates, stabilizer supports, types, z_indices); signs are modelled as 0/1 values; the numpy '
-              'generator behind get_default_direction is an input stream. RotatedToric3DCode: the flip table is '
-              'inconsistent (known finding D10), proved as a negative instance.')
+              'coordinates, stabilizer supports, types, z_indices, even x even and odd x even RotatedToric3DCode '
+              'sizes; the RotatedToric3DCode record is moreover proved equal, for every size, to the hand-written '
+              'lattice model of C01 / C17: rotated_toric3D_lattice_is_the_C01_model); signs are modelled as 0/1 values; the numpy generator behind get_default_direction is an '
+              'input stream; `code.id == RotatedToric3DCode` is the Boolean field rotSeam of the lattice record. '
+              'The seam repair of RotatedSweepDecoder3D is pending as a commit of the library (known_findings: '
+              'fixed PENDING); the former finding D10 is kept as a regression corpus of the oracle that must pass.')
 TECHNIQUE = ('Lean 4 proof (induction over automaton steps from a one-step toggle lemma; coordinate arithmetic '
              'with omega for the all-sizes geometry) + differential correspondence with the compiled model driver')
 TRUSTED = ['numpy Generator.choice behind get_default_direction is modelled as an arbitrary stream of values in '
@@ -39,6 +53,7 @@ TRUSTED = ['numpy Generator.choice behind get_default_direction is modelled as a
 ASSUMPTIONS = ['stabilizer and qubit coordinates of a lattice are pairwise distinct (checked on every compared '
                'lattice; hypothesis `Nodup` of the theorems)',
                'sizes inside the supported families of DESIGN section 4']
+PROPERTY_MODULES = ['PanqecVerif.Properties.C10', 'PanqecVerif.Properties.C10RotatedToric3DModel']
 ANCHOR_FILES = ['panqec/decoders/sweepmatch/_sweep_decoder_3d.py',
                 'panqec/decoders/sweepmatch/_rotated_sweep_decoder.py',
                 'panqec/codes/base/_stabilizer_code.py',
@@ -57,13 +72,13 @@ SIZES_QUICK = {
     'T3': [(2, 2, 2), (2, 2, 3), (2, 3, 2), (3, 2, 2), (3, 3, 3), (2, 3, 4)],
     'P3': [(2, 2, 2), (1, 2, 3), (2, 1, 1), (3, 2, 2), (2, 3, 2), (3, 3, 3), (2, 3, 4)],
     'RP3': [(2, 2, 2), (1, 2, 3), (2, 1, 1), (3, 3, 3), (3, 4, 2), (4, 3, 3), (2, 3, 4)],
-    'RT3': [(2, 2, 2), (2, 4, 3), (4, 2, 2)],
+    'RT3': [(2, 2, 2), (2, 4, 3), (4, 2, 2), (2, 3, 2), (3, 4, 2), (4, 4, 3)],
 }
 SIZES_THOROUGH = {
     'T3': [(4, 4, 4), (4, 2, 3), (3, 4, 5), (5, 2, 2)],
     'P3': [(4, 4, 4), (4, 2, 3), (1, 1, 2), (3, 4, 5), (5, 1, 2)],
     'RP3': [(4, 4, 4), (5, 5, 3), (4, 2, 3), (3, 5, 2), (1, 1, 2), (6, 3, 2)],
-    'RT3': [(4, 4, 2), (2, 3, 2), (3, 2, 2), (4, 6, 3)],
+    'RT3': [(4, 4, 2), (3, 2, 2), (4, 6, 3), (5, 2, 3), (4, 3, 1), (2, 2, 1), (6, 5, 2)],
 }
 
 
@@ -307,9 +322,11 @@ def run_cases(ctx, quick_only=False):
     # documented witness of the old assignment bug (D9)
     cases.append(('T3', (2, 2, 2), (3, 21), (), '', 32, 'witness-D9'))
     # exhaustive weight <= 2 Z errors on the smallest lattices
-    ex = [('T3', (2, 2, 2)), ('P3', (2, 2, 2)), ('RP3', (2, 2, 2)), ('RP3', (3, 3, 2)), ('RT3', (2, 2, 2))]
+    ex = [('T3', (2, 2, 2)), ('P3', (2, 2, 2)), ('RP3', (2, 2, 2)), ('RP3', (3, 3, 2)), ('RT3', (2, 2, 2)),
+          ('RT3', (2, 3, 2))]
     if ctx.thorough:
-        ex += [('T3', (2, 2, 3)), ('P3', (3, 2, 2)), ('P3', (2, 3, 3)), ('RP3', (3, 3, 3)), ('RP3', (2, 3, 4))]
+        ex += [('T3', (2, 2, 3)), ('P3', (3, 2, 2)), ('P3', (2, 3, 3)), ('RP3', (3, 3, 3)), ('RP3', (2, 3, 4)),
+               ('RT3', (3, 2, 2)), ('RT3', (2, 4, 2)), ('RT3', (3, 4, 2))]
     scripts = ['', '1', '2', '012', '2101']
     for tag, size in ex:
         n = make_code(tag, size).n
@@ -325,10 +342,10 @@ def run_cases(ctx, quick_only=False):
     rnd = [('T3', (2, 2, 2)), ('T3', (3, 3, 3)), ('T3', (2, 3, 4)), ('T3', (3, 2, 2)),
            ('P3', (3, 3, 3)), ('P3', (2, 3, 4)), ('P3', (3, 2, 2)),
            ('RP3', (3, 3, 3)), ('RP3', (3, 4, 2)), ('RP3', (4, 3, 3)), ('RP3', (2, 3, 4)),
-           ('RT3', (2, 2, 2)), ('RT3', (2, 4, 3))]
+           ('RT3', (2, 2, 2)), ('RT3', (2, 4, 3)), ('RT3', (3, 4, 2)), ('RT3', (4, 4, 3)), ('RT3', (2, 3, 2))]
     if ctx.thorough:
         rnd += [('T3', (4, 4, 4)), ('T3', (4, 2, 3)), ('P3', (4, 4, 4)), ('RP3', (5, 5, 3)), ('RP3', (4, 4, 4)),
-                ('RT3', (4, 4, 2)), ('RT3', (2, 3, 2))]
+                ('RT3', (4, 4, 2)), ('RT3', (5, 2, 3)), ('RT3', (4, 6, 3)), ('RT3', (6, 5, 2))]
     reps = 6 if ctx.thorough else 2
     for tag, size in rnd:
         n = make_code(tag, size).n
@@ -356,7 +373,7 @@ def decode_streams(ctx):
         init = guarded(lambda: bits(dec.get_initial_state(syn)))
         inp = {'code': CODE_NAME[tag], 'size': list(size), 'error_z': list(zs), 'error_x': list(xs),
                'script': script, 'param': param}
-        s_init.add(f'sw.init {spec(tag, size)} {bits(syn)}', init, inp, nontrivial=bool(zs or xs), tag=tag)
+        s_init.add(f'sw.init {DEC_OF[tag]} {spec(tag, size)} {bits(syn)}', init, inp, nontrivial=bool(zs or xs), tag=tag)
         result, steps, rng = traced_decode(dec, syn, script)
         for i, st in enumerate(steps):
             sub = script_slice(script, st['pos_in'], len(script))
@@ -384,9 +401,10 @@ def direct_move_stream(ctx):
     rng = ctx.np_rng(303)
     s = Stream('sweep_move-direct-arbitrary-states')
     targets = [('T3', (2, 2, 2)), ('T3', (3, 3, 3)), ('T3', (2, 3, 4)), ('P3', (3, 3, 3)), ('P3', (2, 3, 2)),
-               ('RP3', (3, 3, 3)), ('RP3', (4, 3, 3)), ('RP3', (2, 3, 4)), ('RT3', (2, 2, 2)), ('RT3', (2, 4, 3))]
+               ('RP3', (3, 3, 3)), ('RP3', (4, 3, 3)), ('RP3', (2, 3, 4)), ('RT3', (2, 2, 2)), ('RT3', (2, 4, 3)),
+               ('RT3', (3, 4, 2)), ('RT3', (2, 3, 2))]
     if ctx.thorough:
-        targets += [('T3', (4, 4, 4)), ('P3', (4, 4, 4)), ('RP3', (5, 5, 3)), ('RT3', (4, 4, 2))]
+        targets += [('T3', (4, 4, 4)), ('P3', (4, 4, 4)), ('RP3', (5, 5, 3)), ('RT3', (4, 4, 2)), ('RT3', (5, 2, 3))]
     reps = 8 if ctx.thorough else 3
     for tag, size in targets:
         code = make_code(tag, size)
@@ -411,7 +429,8 @@ def direct_move_stream(ctx):
                            'sweep_direction': list(sd) if sd else None, 'script': script},
                           nontrivial=bool(signs.any()), tag=f'{tag}-dens{dens}')
     # exhaustive weight<=2 errors x all 8 directions, one step from the initial state (rotated decoder)
-    for tag, size in [('RP3', (2, 2, 2)), ('RP3', (3, 3, 2))] + ([('RP3', (3, 3, 3))] if ctx.thorough else []):
+    for tag, size in [('RP3', (2, 2, 2)), ('RP3', (3, 3, 2)), ('RT3', (2, 2, 2)), ('RT3', (2, 3, 2))] + \
+            ([('RP3', (3, 3, 3)), ('RT3', (3, 4, 2))] if ctx.thorough else []):
         code = make_code(tag, size)
         dec = make_dec(tag, size)
         for w in (1, 2):
@@ -445,8 +464,42 @@ def table_stream(ctx):
     return s.run()
 
 
+def wrap_stream(ctx):
+    """`RotatedSweepDecoder3D._wrap`, `get_sweep_faces`, `get_sweep_edges` (the seam repair of D10) against
+    `wrapRot`, `sweepFacesRot`, `sweepEdgesRot`: every vertex x the eight sweep directions, locations around
+    and across the seams, on both classes of the rotated decoder."""
+    s = Stream('rotated-wrap-sweep-faces-edges')
+    rng = ctx.np_rng(505)
+    for tag in ('RP3', 'RT3'):
+        for size in sizes(ctx, tag):
+            code = make_code(tag, size)
+            dec = make_dec(tag, size)
+            sp = spec(tag, size)
+            Lx, Ly, Lz = size
+            inp = {'code': CODE_NAME[tag], 'size': list(size)}
+            locs = [(x, y, z) for x in (-3, -1, 0, 1, 2, 2 * Lx - 1, 2 * Lx, 2 * Lx + 1, 2 * Lx + 2, 4 * Lx + 1)
+                    for y in (-2, 0, 1, 2 * Ly, 2 * Ly + 1, 2 * Ly + 3) for z in (0, 1, 2 * Lz)]
+            for loc in locs:
+                s.add(f'sw.wrap {sp} {loc_s(loc)}', guarded(lambda: loc_s(dec._wrap(loc))),
+                      {**inp, 'location': list(loc), 'what': '_wrap'}, tag=f'{tag}-wrap',
+                      nontrivial=(tag == 'RT3'))
+            verts = [v for v in code.stabilizer_coordinates if code.stabilizer_type(v) == 'vertex']
+            verts += [tuple(int(c) for c in code.stabilizer_coordinates[int(i)])
+                      for i in rng.integers(0, code.n_stabilizers, 4)] + [(0, 0, 0), (1, 2 * Ly, 1)]
+            for v in verts:
+                for sd in SWEEP_DIRS:
+                    def go():
+                        F = dec.get_sweep_faces(v, sd)
+                        E = dec.get_sweep_edges(v, sd)
+                        return ';'.join(loc_s(f) for f in F) + ' ' + ';'.join(loc_s(e) for e in E)
+                    s.add(f'sw.sweep {sp} {loc_s(v)} {loc_s(sd)}', guarded(go),
+                          {**inp, 'vertex': [int(c) for c in v], 'sweep_direction': list(sd),
+                           'what': 'get_sweep_faces + get_sweep_edges'}, tag=f'{tag}-sweep')
+    return s.run()
+
+
 def correspondence(ctx):
-    streams = [lattice_stream(ctx), flip_stream(ctx), table_stream(ctx), site_stream(ctx)]
+    streams = [lattice_stream(ctx), flip_stream(ctx), table_stream(ctx), site_stream(ctx), wrap_stream(ctx)]
     streams += decode_streams(ctx)
     streams.append(direct_move_stream(ctx))
     return streams
@@ -482,11 +535,16 @@ def check_case(case):
             dec.flip_edge(loc, signs)
             want = face_syndrome(code, error_vec(code, [code.qubit_index[loc]]))
             if case.get('rows') == 'as-decoder':
-                # the hypothesis as the MODEL states it (flipTableOK): face rows = the rows the decoder does not
-                # blank in get_initial_state (`signs[z_indices] = 0`); differs from the rows of type 'face' only on
-                # the mixed X/Z generators of the defect lines of odd-sized RotatedToric3DCode
+                # the hypothesis as the MODEL states it: face rows = the rows the decoder does not blank in
+                # get_initial_state.  SweepDecoder3D (flipTableOK): `signs[z_indices] = 0`;
+                # RotatedSweepDecoder3D (flipTableOKRot): the rows whose stabilizer_type is 'vertex' are blanked,
+                # i.e. face rows = rows of type 'face' - the oracle's own notion (the two notions differ only on
+                # the mixed X/Z generators of the defect lines of odd-sized RotatedToric3DCode)
                 syn = np.array(code.measure_syndrome(error_vec(code, [code.qubit_index[loc]]))).astype(int).reshape(-1)
-                want = syn * (1 - np.asarray(code.z_indices).astype(int))
+                if DEC_OF[tag] == 's3':
+                    want = syn * (1 - np.asarray(code.z_indices).astype(int))
+                else:
+                    want = syn * face_rows(code).astype(int)
             got = np.array(signs).astype(int)
             if not np.array_equal(got, want):
                 return (f'flip_edge({loc}) toggles stabilizer rows {np.nonzero(got)[0].tolist()} but the face '
@@ -556,6 +614,26 @@ def case_key(c):
     return {'decoder': DEC_NAME[DEC_OF[c['code']]], 'code': CODE_NAME[c['code']], 'what': WHAT[c['kind']]}
 
 
+def regression_corpus():
+    """Inputs of the former finding D10 (RotatedSweepDecoder3D had no periodic seam on RotatedToric3DCode:
+    8 of the 10 edges of the 2x2x2 lattice toggled the wrong faces), repaired by `_wrap`; they must pass.
+    Plus the defect lines of odd sizes, where `get_initial_state` used to blank a face generator that
+    carries Z letters (`z_indices`)."""
+    cases = []
+    for edge in [(1, 1, 1), (1, 1, 3), (1, 3, 1), (1, 3, 3), (3, 1, 1), (3, 1, 3), (2, 4, 2), (4, 2, 2),
+                 (3, 3, 1), (3, 3, 3)]:
+        cases.append({'kind': 'geom', 'code': 'RT3', 'size': [2, 2, 2], 'edge': list(edge)})
+    for q in range(10):
+        for script in ('', '21'):
+            cases.append({'kind': 'run', 'code': 'RT3', 'size': [2, 2, 2], 'error_z': [q], 'error_x': [],
+                          'script': script, 'param': 2})
+    for size, n in (((2, 3, 2), 15), ((3, 2, 2), 15)):
+        for q in range(n):
+            cases.append({'kind': 'run', 'code': 'RT3', 'size': list(size), 'error_z': [q],
+                          'error_x': [(q + 1) % n, (q + 4) % n], 'script': '102', 'param': 1})
+    return cases
+
+
 def oracle_cases(ctx, deep):
     rng = ctx.np_rng(404)
     cases = []
@@ -569,13 +647,12 @@ def oracle_cases(ctx, deep):
             code = make_code(tag, size)
             for loc in code.qubit_coordinates:
                 cases.append({'kind': 'geom', 'code': tag, 'size': list(size), 'edge': [int(v) for v in loc]})
+    cases += regression_corpus()
     for tag, size, zs, xs, script, param, label in run_cases(C):
-        if tag == 'RT3':
-            continue     # the rotated-toric seam is reported through the geometry cases (known finding D10)
         cases.append({'kind': 'run', 'code': tag, 'size': list(size), 'error_z': list(zs), 'error_x': list(xs),
                       'script': script, 'param': param})
     for tag, size in [('T3', (2, 2, 2)), ('T3', (3, 3, 3)), ('P3', (3, 3, 3)), ('RP3', (3, 3, 3)),
-                      ('RP3', (4, 3, 3))]:
+                      ('RP3', (4, 3, 3)), ('RT3', (2, 2, 2)), ('RT3', (2, 4, 3)), ('RT3', (3, 4, 2))]:
         code = make_code(tag, size)
         m = code.n_stabilizers
         face = face_rows(code)
